@@ -82,6 +82,20 @@ class TypedSub(Typed):
   extra: T.Int(min_value=0) = 0
 
 
+class Typed2(pg.Object):
+  """Spec combinations that `Typed` does not have: frozen + noneable, tight
+  list bounds, noneable bounded numbers, frozen members of nested dicts."""
+  fzn: T.Str().noneable().freeze('fast') = 'fast'
+  fzb: T.Bool().noneable().freeze(True) = True
+  l2: T.List(T.Int(min_value=0, max_value=9), min_size=2, max_size=4) = [1, 2]
+  ln: T.List(T.Str().noneable(), min_size=1, max_size=3) = ['a']
+  nf: T.Float(min_value=0.0, max_value=1.0).noneable() = None
+  ne: T.Enum('a', ['a', 'b']).noneable() = 'a'
+  dk: T.Dict([('k', T.Int().noneable().freeze(3)),
+              ('v', T.List(T.Int(), min_size=1, max_size=2, default=[0]))]) = dict(v=[0])
+  lf: T.List(T.Int().freeze(1), max_size=3) = []
+
+
 class Required(pg.Object):
   """Object with required fields (can be partial)."""
   r: T.Int()
@@ -130,6 +144,7 @@ def plain_fn(x):
 
 UNTYPED_CLASSES = [Any2, Writable, Notifier, Bound, NoSymCmp]
 TYPED_CLASSES = [Typed, TypedSub, Required, TypedNotifier, Inner]
+EXTRA_TYPED_CLASSES = [Typed2]
 
 
 # ---------------------------------------------------------------------------
